@@ -407,6 +407,10 @@ def run(tier, seed):
             ops.append({"K": "log", "Sev": rng.pick([1, 1, 2, 3]), "Msg": hx(body)})
             if rng.chance(1, 8):
                 ops.append({"K": "read"})
+            if rng.chance(1, 10):
+                # SetSync(true / false): buffered entries must still reach the file at the next flush
+                ops.append({"K": "sync", "Sev": rng.pick([1, 1, 0])})
+                rep.count("rotation-setsync")
         # the file names carry the user name of the process: a name with periods must still be listed and read back
         uname = rng.pick(["", "", "john.doe", "a.b.c"])
         rep.count("rotation-user-name:" + ("dotted" if uname else "process user"))
